@@ -19,6 +19,7 @@ func installHooks(k *Kernel) {
 	}
 	simsync.Track = true
 	simsync.Hook = func(kind, site string) { k.Yield(kind, site) }
+	simsync.TimerHook = func(rank uint64) { k.setRank(rank) }
 }
 
 var freeMode bool
@@ -26,6 +27,7 @@ var freeMode bool
 func uninstallHooks() {
 	if !freeMode {
 		simsync.Hook = nil
+		simsync.TimerHook = nil
 	}
 }
 
